@@ -20,7 +20,9 @@ RULE = (
     "adjacent swap / replacement by every alphabet token (thorough: double mutations of 3 seeds); (c) arithmetic catalogue: every "
     "binary operator x operand pairs from 13 corner values, every \\\\uXXXX / \\\\UXXXXXXXX boundary escape in five contexts, nesting "
     "depths 1..100 of four bracket kinds and operator chains up to 400; (d) 60 well- and ill-formed file names and pairs of files "
-    "encoding the same (name, version). Non-trivial iff the text is not a valid definition or is a mutation of a seed; distinct "
+    "encoding the same (name, version); (e) magnitudes: 9 astronomically large values (10**5000, 2**64, 2**70, negative, non-integer ...) in each of 23 numeric "
+    "sinks (capacities, extents, initializers, directive operands, layout intrinsics) x 20 follow-ups that make the reader report another error while "
+    "the value is part of the model, plus minor-version pairs and dependencies carrying such values. Non-trivial iff the text is not a valid definition or is a mutation of a seed; distinct "
     "by canonical hash of the text / name set"
 )
 ASSUMPTIONS = [
@@ -133,6 +135,46 @@ def catalogue():
     return out
 
 
+# ---------------------------------------------------------------------------------------------------------------
+# magnitudes: astronomically large (but cheaply written) numbers in every numeric sink of a definition, combined with every
+# follow-up that makes the reader report an error while such a number is part of the model (the message must still be built)
+HUGE = ["10**5000", "8 * 10**5000", "(10**5000 + 1)", "-(10**5000)", "(10**5000 / 3)", "2**64", "(2**64 - 8)", "2**70", "2**4300 * 8"]
+SINKS = [
+    "uint8[%s] x", "uint8[<=%s] x", "uint8[<%s] x", "bool[%s] x", "void8[%s] x", "utf8[%s] x", "utf8[<=%s] x", "byte[%s] x", "Dep.1.0[%s] x", "Dep.1.0[<=%s] x",
+    "uint8[%s] x\n@print _offset_", "uint8[%s] x\n@assert _offset_ % 8 == {0}", "bool[%s] x\nuint8 y\n@assert _offset_.min > 0", "@print uint8[%s]._bit_length_", "@union\nuint8[%s] x\nuint8 y\n@assert _offset_.min > 0",
+    "uint64 X = %s", "float64 X = %s", "bool X = %s", "uint8 x\n@assert _offset_ == {%s}", "uint8 x\n@assert _offset_.max < %s", "@assert %s > 0", "@print %s", "@print {%s, 1}.max",
+]
+FOLLOW = [
+    "@sealed", "", "@extent 8", "@extent 64 * 8", "@extent %(v)s", "@extent 8 * %(v)s", "@extent %(v)s + 8", "@sealed\n@sealed", "@sealed\n@extent 8", "uint8 x\n@sealed", "uint8 enum\n@sealed", "uint8 y\n@sealed",
+    "void3\nuint8 y\n@sealed", "@union\n@sealed", "uint8 Y = 256\n@sealed", "@assert false\n@sealed", "@deprecated\n@sealed", "---\nuint8 r\n@sealed", "@sealed\n---\nuint8 r\n@sealed", "@sealed\n---\n%(s)s\n@extent 8",
+]
+# the same sinks inside a dependency / next to another minor version of the same type (the cross-definition messages quote extents)
+HUGE_PAIRS = [
+    ("uint8[10**5000] x\n@sealed\n", "uint8[10**5000] x\nuint8 y\n@sealed\n"),
+    ("uint8 x\n@extent 8 * 10**5000\n", "uint8 y\n@extent 16 * 10**5000\n"),
+    ("uint8 x\n@extent 8 * 10**5000\n", "uint8 y\n@sealed\n"),
+    ("uint8[2**70] x\n@extent 16 * 2**70\n", "uint8[2**70] x\n@extent 32 * 2**70\n"),
+    ("uint8 x\n@sealed\n---\nuint8 y\n@extent 8 * 10**5000\n", "uint8 x\n@sealed\n---\nuint8 y\n@extent 16 * 10**5000\n"),
+]
+HUGE_DEPS = ["uint8[10**5000] x\n@sealed\n", "@deprecated\nuint8[10**5000] x\n@sealed\n", "uint8 x\n@extent 8 * 10**5000\n", "@deprecated\nuint8 x\n@extent 8 * 10**5000\n"]
+HUGE_USES = ["lk.Big.1.0 b\n@sealed\n", "lk.Big.1.0[2] b\n@sealed\n", "lk.Big.1.0[<=2] b\n@extent 8\n", "lk.Big.1.0 b\n@extent 64\n", "@union\nlk.Big.1.0 b\n@sealed\n", "lk.Big.1.0 b\nlk.Big.1.0 b\n@sealed\n",
+             "@print lk.Big.1.0._extent_\n@sealed\n", "@assert lk.Big.1.0._extent_ < 0\n@sealed\n", "uint8[lk.Big.1.0._extent_] z\n@extent 8\n", "lk.Big.1.0 b\n@extent lk.Big.1.0._extent_ - 8\n", "lk.Big.1.0 b\n"]
+
+
+def magnitudes():
+    for v in HUGE:
+        for s in SINKS:
+            st = s.replace("%s", v)
+            for f in FOLLOW:
+                yield {"kind": "text", "text": st + "\n" + (f % {"v": v, "s": st}) + "\n", "family": "magnitude", "nodump": True}
+    for a, b in HUGE_PAIRS:
+        yield {"kind": "files", "files": {"rns/Big.1.0.dsdl": a, "rns/Big.1.1.dsdl": b}, "root": "rns", "family": "magnitude"}
+        yield {"kind": "files", "files": {"rns/Big.1.0.dsdl": b, "rns/Big.1.1.dsdl": a}, "root": "rns", "family": "magnitude"}
+    for d in HUGE_DEPS:
+        for u in HUGE_USES:
+            yield {"kind": "files", "files": {"lk/Big.1.0.dsdl": d, "rns/T.1.0.dsdl": u}, "root": "rns", "lookups": ["lk"], "family": "magnitude"}
+
+
 FILENAMES = [
     "A.1.0.dsdl", "A.1.0.uavcan", "7000.A.1.0.dsdl", "A.0.1.dsdl", "A.255.255.dsdl", "A.256.0.dsdl", "A.0.0.dsdl", "A.1.dsdl", "A.dsdl", ".dsdl", "1.0.dsdl",
     "A.1.0.0.0.dsdl", "x.7000.A.1.0.dsdl", "A.-1.0.dsdl", "A.1.-0.dsdl", "A.+1.0.dsdl", "A.1_0.0.dsdl", "A. 1.0.dsdl", "A.١.0.dsdl", "A.1e1.0.dsdl", "A.0x1.0.dsdl",
@@ -158,6 +200,7 @@ def plan(tier):
     shards += [{"family": "catalogue", "part": p, "parts": 32} for p in range(32)]
     shards += [{"family": "in-dependency", "part": p, "parts": 32} for p in range(32)]
     shards += [{"family": "names", "part": p, "parts": 8} for p in range(8)]
+    shards += [{"family": "magnitudes", "part": p, "parts": 16} for p in range(16)]
     if tier != "quick":
         shards += [{"family": "mutations2", "part": p, "parts": 128} for p in range(128)]
     return shards
@@ -227,6 +270,10 @@ def cases(shard, tier):
                 if i % shard["parts"] == shard["part"]:
                     yield {"kind": "text", "text": s, "family": "catalogue", "where": "dependency"}
                 i += 1
+    elif fam == "magnitudes":
+        for i, c in enumerate(magnitudes()):
+            if i % shard["parts"] == shard["part"]:
+                yield c
     elif fam == "names":
         i = 0
         for n in FILENAMES:
@@ -286,10 +333,14 @@ def check_case(case, R: engine.Acc):
                 R.outcome("invalid-use-of-valid-dependency")
                 return
         verdict(o, R, case, "lk/Bad.1.0.dsdl")
+    elif case["kind"] == "files":
+        o = api.read_namespace_tree(case["files"], case["root"], case.get("lookups"), timeout=30, nodump=True)
+        R.case(case["files"], nontrivial=True, sample=False)
+        verdict(o, R, case, None)
     elif case["kind"] == "text":
         files = dict(DEP)
         files["rns/T.1.0.dsdl"] = case["text"].encode("utf-8")
-        o = api.read_namespace_tree(files, "rns", timeout=30)
+        o = api.read_namespace_tree(files, "rns", timeout=30, nodump=bool(case.get("nodump")))
         R.case(case["text"], nontrivial=(o.error is not None or case["family"] != "tokens"), sample=(case["family"] == "mutation" and len(case["text"]) % 41 == 0))
         verdict(o, R, case, "rns/T.1.0.dsdl")
     else:
